@@ -1,6 +1,7 @@
 package rules
 
 import (
+	"os"
 	"fmt"
 	"strings"
 
@@ -48,7 +49,7 @@ func directErrorRecord(c *Ctx, s *scanShape, in ssa.Instruction, raw bool) (stri
 		return "", false
 	}
 	if raw {
-		return c.valueDescRaw(mu.Key), true
+		return c.exprDesc(mu.Key), true
 	}
 	return c.valueDesc(mu.Key), true
 }
@@ -237,7 +238,11 @@ func runC13(c *Ctx) {
 		bad := ir.Edge{From: iff.Block(), Succ: 1 - nilSucc}
 		recorded := func(in ssa.Instruction) bool {
 			if kd, ok := directErrorRecord(c, s, in, true); ok {
-				if strings.Contains(kd, "param:path") {
+				if os.Getenv("CDIVERIF_DEBUG") != "" {
+					fmt.Fprintln(os.Stderr, "DBG direct record key:", kd)
+				}
+				// the key is the file's own (cleaned) path, nothing derived from it
+				if kd == "$path" || kd == "path/filepath.Clean($path)" || kd == "elem([$path])" || kd == "elem([path/filepath.Clean($path)])" {
 					nDirect++
 					return true
 				}
@@ -265,7 +270,27 @@ func runC13(c *Ctx) {
 			}
 			return false
 		}
-		esc := ir.CanReach(scb, ir.PathQuery{FromEdge: &bad, Stop: recorded})
+		// a record inside the loop over a literal list of paths (the expanded collector) is made
+		// whenever that loop is reached
+		recordedOrLoop := func(in ssa.Instruction) bool {
+			if recorded(in) {
+				return true
+			}
+			for _, l := range ir.Loops(scb) {
+				if in.Block() != l.Header || !nonEmptyLiteral(l.Over) {
+					continue
+				}
+				for b := range l.BodyBlocks() {
+					for _, bi := range b.Instrs {
+						if recorded(bi) {
+							return true
+						}
+					}
+				}
+			}
+			return false
+		}
+		esc := ir.CanReach(scb, ir.PathQuery{FromEdge: &bad, Stop: recordedOrLoop})
 		r.Check("C13.3", "failure-recorded", !esc, c.pos(iff), "on a load failure every path records the error under the file's path before the callback returns")
 	}
 	if collector == nil && nDirect == 0 {
@@ -389,22 +414,24 @@ func runC13(c *Ctx) {
 	if rf := c.fn("C13.4", "cdi", "(*Cache).Refresh"); rf != nil {
 		var okRefreshed, okCached bool
 		for _, ret := range ir.NormalReturns(rf) {
-			rv := ir.ReturnResult(ret, 0)
-			d := c.valueDescRaw(rv)
 			gs := c.guardsOf(rf, ret)
-			if strings.Contains(d, "refreshIfRequired#1") {
-				okRefreshed = true
-				continue
-			}
-			if call, ok := rv.(*ssa.Call); ok && call.Call.StaticCallee() != nil && call.Call.StaticCallee().String() == "errors.Join" {
-				for _, l := range ir.Loops(rf) {
-					if c.valueDesc(l.Over) == "param:c.errors" && l.Complete {
-						okCached = true
-					}
+			// one return per case, or one return of a variable assigned in either case
+			for _, rv := range phiLeaves(ir.ReturnResult(ret, 0)) {
+				d := c.valueDescRaw(rv)
+				if strings.Contains(d, "refreshIfRequired#1") {
+					okRefreshed = true
+					continue
 				}
-				continue
+				if call, ok := rv.(*ssa.Call); ok && call.Call.StaticCallee() != nil && call.Call.StaticCallee().String() == "errors.Join" {
+					for _, l := range ir.Loops(rf) {
+						if c.valueDesc(l.Over) == "param:c.errors" && l.Complete {
+							okCached = true
+						}
+					}
+					continue
+				}
+				r.Violation("C13.4", "Refresh-result:other", c.pos(ret), fmt.Sprintf("Refresh returns %s under %v", d, gs))
 			}
-			r.Violation("C13.4", "Refresh-result:other", c.pos(ret), fmt.Sprintf("Refresh returns %s under %v", d, gs))
 		}
 		r.Check("C13.4", "Refresh-result", okRefreshed && okCached, c.U.Pos(rf.Pos()), "Refresh returns the refresh's own result when it refreshed, and the join of the cached per-file errors otherwise")
 	}
